@@ -142,6 +142,7 @@ func runC05(c *Ctx) {
 	}
 
 	errflowCone(c, c05Config())
+	listingCompletenessAll(c, "R8-listing-complete", 8)
 
 	// R4 compaction hand-off
 	if fn := c.fn("R4-compaction-handoff", "(*ls.Compactor).Compact"); fn != nil {
